@@ -116,7 +116,7 @@ theorem indexOf_append (a b : UInt8) (sep' post : Bytes) (hab : a ≠ b) :
     unfold indexOf
     have hnp : (a :: b :: sep').isPrefixOf (c :: (pre ++ a :: b :: (sep' ++ post))) = false := by
       cases pre with
-      | nil => simp [List.isPrefixOf, hab, Ne.symm hab]
+      | nil => simp [List.isPrefixOf, Ne.symm hab]
       | cons d pre' =>
         have hd : d ≠ b := fun h' => hr (by simp [h'])
         simp [List.isPrefixOf, Ne.symm hd]
@@ -150,7 +150,7 @@ theorem not_mem_replaceByte (a b : UInt8) (hab : a ≠ b) (s : Bytes) : a ∉ re
   obtain ⟨c, _, hc⟩ := List.mem_map.mp h
   by_cases hca : c = a
   · simp [hca] at hc; exact hab hc.symm
-  · simp [hca] at hc; exact hca hc
+  · simp [hca] at hc
 
 /-! ### Path / version codecs -/
 
@@ -201,7 +201,8 @@ theorem escapeVersion_eq_some {v e : Bytes} :
         obtain ⟨hp, _⟩ := escapeString_eq_some.mp h
         have := List.contains_iff_mem.mp h33
         exact absurd rfl (hp 33 this).1
-    · simp [hc, h33]
+    · have h33' : v.contains 33 = false := by simpa using h33
+      simp only [hc, h33', Bool.not_false, Bool.and_self, if_true, true_and]
   · simp [hc]
 
 theorem unescapePath_escapePath {p e : Bytes} (h : escapePath p = some e) : unescapePath e = some p := by
@@ -237,8 +238,7 @@ theorem splitName_spec {base pre ev : Bytes} (h : splitName base = some (pre, ev
     refine ⟨post, ?_, ?_⟩
     · rw [← h.1, hb, ← hlen]; simp
     · rw [← h.2, hb, ← hlen]
-      have := drop_append_length p ([95, 118] ++ post) 1
-      simpa using this
+      simp
 
 theorem splitName_append (pre ev : Bytes) (h1 : 95 ∉ ev) (h2 : ev.head? = some 118) :
     splitName (pre ++ 95 :: ev) = some (pre, ev) := by
@@ -342,6 +342,50 @@ theorem decodeBase_of_archiveBase {p v base : Bytes} (h : archiveBase p v = some
       simp only [hf, ht]
       rw [replaceByte_replaceByte 47 95 enc henc, unescapePath_escapePath hep, unescapeVersion_escapeVersion hev]
 
+/-! ### sorting -/
+
+theorem mem_insertBy {α} (le : α → α → Bool) (a x : α) : ∀ l : List α, x ∈ insertBy le a l ↔ x = a ∨ x ∈ l := by
+  intro l
+  induction l with
+  | nil => simp [insertBy]
+  | cons b bs ih =>
+    unfold insertBy
+    by_cases h : le a b = true
+    · simp [h]
+    · simp only [h, Bool.false_eq_true, if_false, List.mem_cons, ih]
+      constructor
+      · rintro (h | h | h)
+        · exact Or.inr (Or.inl h)
+        · exact Or.inl h
+        · exact Or.inr (Or.inr h)
+      · rintro (h | h | h)
+        · exact Or.inr (Or.inl h)
+        · exact Or.inl h
+        · exact Or.inr (Or.inr h)
+
+theorem mem_sortBy {α} (le : α → α → Bool) (x : α) : ∀ l : List α, x ∈ sortBy le l ↔ x ∈ l := by
+  intro l
+  induction l with
+  | nil => simp [sortBy]
+  | cons a as ih => simp [sortBy, mem_insertBy, ih]
+
+theorem perm_insertBy {α} (le : α → α → Bool) (a : α) : ∀ l : List α, (insertBy le a l).Perm (a :: l) := by
+  intro l
+  induction l with
+  | nil => simp [insertBy]
+  | cons b bs ih =>
+    unfold insertBy
+    by_cases h : le a b = true
+    · simp [h]
+    · simp only [h, Bool.false_eq_true, if_false]
+      exact (List.Perm.cons b ih).trans (List.Perm.swap a b bs)
+
+theorem perm_sortBy {α} (le : α → α → Bool) : ∀ l : List α, (sortBy le l).Perm l := by
+  intro l
+  induction l with
+  | nil => simp [sortBy]
+  | cons a as ih => exact (perm_insertBy le a _).trans (List.Perm.cons a ih)
+
 /-! ### readModList -/
 
 theorem entryBase_prefix {n base : Bytes} {d : Bool} (h : entryBase n d = some base) : ∃ suf, n = base ++ suf := by
@@ -424,12 +468,12 @@ theorem mem_readModList {st : Store} {ml : List ModVer} (h : readModList st = so
   unfold readDir
   constructor
   · rintro ⟨e, he, r⟩
-    rw [List.mem_mergeSort, List.mem_map] at he
+    rw [mem_sortBy, List.mem_map] at he
     obtain ⟨e0, he0, rfl⟩ := he
     exact ⟨e0, he0, r⟩
   · rintro ⟨e, he, r⟩
     refine ⟨(e.1, e.2.isDir), ?_, r⟩
-    rw [List.mem_mergeSort, List.mem_map]
+    rw [mem_sortBy, List.mem_map]
     exact ⟨e, he, rfl⟩
 
 /-- every recorded module version round-trips to the base name of one of the directory entries -/
